@@ -6,7 +6,7 @@ import ast
 from ..lin import Lin
 from ..avals import *   # noqa
 from ..avals import value_tags
-from ..decide import Runs, need_ge0, need_eq0, definite, soft
+from ..decide import benign_unknown, Runs, need_ge0, need_eq0, definite, soft
 from ..report import Ob, PROVED, REFUTED, UNDECIDED, func_where, ASSUMPTIONS, Failure
 from ..model import norm_text, AnalysisError
 from .. import seqops
@@ -396,7 +396,7 @@ def cipher_ob(prog, res, fi, alg, ctx, oid, title):
                     fails.append(definite(f'the cipher is keyed with {k!r}, not the key supplied by the caller', e.node))
         return fails
     return runs.judge(oid, title, func_where(fi), f'Cipher({alg}(key), modes.ECB()).{ctx}()', chk,
-                      rule=f'{oid}.{fi.short}', unknown_ok=lambda u: True)
+                      rule=f'{oid}.{fi.short}', unknown_ok=benign_unknown)
 
 
 def _whole_key(p, k):
